@@ -178,6 +178,14 @@ def body_eq(case, ctx):
         if not got.ok or bool(got.value) != expect:
             raise Violation("eq:overlapping-views", expected=expect, got=got.brief(), windows=[i, j, L])
         return
+    if mode in ("one-vs-repeats", "repeats-vs-one") and n >= 1:
+        # a one-entry object against a longer object whose every entry repeats it: different lengths, hence not equal
+        m = 2 + case["p"] % 3
+        one = [f[:1].copy() for f in fs]
+        rep = [np.repeat(f[:1], m, axis=0) for f in fs]
+        o1 = cls(k)(*(one if mode == "one-vs-repeats" else rep))
+        fs2 = rep if mode == "one-vs-repeats" else one
+        expect = False
     ctx.label("k:%d" % k, "expect-equal" if expect else "expect-unequal:" + mode)
     ctx.nt(k >= 2)
     o2 = cls(k)(*fs2)
@@ -291,7 +299,7 @@ def concat_case(draw, tier):
 @st.composite
 def eq_case(draw, tier):
     fields, n = draw(fields_st())
-    return {"fields": fields, "n": n, "mode": draw(st.sampled_from(["same", "change", "change", "shorter", "views", "views"])),
+    return {"fields": fields, "n": n, "mode": draw(st.sampled_from(["same", "change", "change", "shorter", "views", "views", "one-vs-repeats", "repeats-vs-one"])),
             "j": draw(st.integers(0, 3)), "p": draw(st.integers(0, 1000))}
 
 
